@@ -386,8 +386,13 @@ def c16_near(w, ev, slot):
         ax = y & 1
         md = [dict(d) for d in r2.mdl(ax)]
         i = salt % ref.n(ax)
-        md[i]['note'] = 'changed-%d' % (salt % 7) \
-            if md[i].get('note') != 'changed-%d' % (salt % 7) else 'other'
+        if y & 4 and ref.md[ax] is not None and 'unset' not in md[i]:
+            # a category present with the value None where the twin has no
+            # such category (differs e.g. in the JSON document)
+            md[i]['unset'] = None
+        else:
+            md[i]['note'] = 'changed-%d' % (salt % 7) \
+                if md[i].get('note') != 'changed-%d' % (salt % 7) else 'other'
         r2.md[ax] = canon_md(md)
     elif kind == 4:                                 # type
         r2.type = 'Gene table' if ref.type != 'Gene table' else 'OTU table'
@@ -909,6 +914,15 @@ def c19_cli(w, ev, slot):
             md = ref.md[ax]
             w.case('c19.cli', 'export-metadata', slot, ax=ax,
                    md=md is not None)
+            if md is not None:
+                # outside the domain (same categories on every id, lists of
+                # one length per category): what the exporter does with
+                # ragged metadata is not specified, it may also refuse
+                keys0 = list(md[0])
+                if not all(set(d) == set(keys0) for d in md) or any(
+                        len({len(d[k]) if isinstance(d.get(k), (list, tuple))
+                             else -1 for d in md}) != 1 for k in keys0):
+                    return 'skip:irregular_md'
             out = store.new_path(w, '.md.tsv')
             buf = io.StringIO()
             with contextlib.redirect_stdout(buf):
